@@ -66,7 +66,10 @@ TRUSTED = ["json.load / json.dump round-trip floats exactly (repr)",
 ASSUMPTIONS = ["FLEX dialect JSON files, scale 1.0 (as MultifileIngest constructs them); TORCH profiles, "
                "perfetto and api:// inputs are outside the model",
                "pid / tid values are JSON integers",
-               "per-file iterators share no state (GlobalIngestData only maps the job hash to the dialect)"]
+               "per-file iterators share no state: the job hashes (crc32(path) % 10000) of the input files are pairwise "
+               "distinct and differ from that of the constant job 'top_level_multifile', so every file is read under "
+               "its own dialect (the harness re-chooses file names until this holds; stream H shows what happens "
+               "otherwise — known finding ingest-jobhash-collision)"]
 NOT_YET_PROVED = []
 LEVEL_TEXT = ("Lean theorems over a model of MultifileIngest and the per-file JSON iterator, for any number of files "
               "of any length: the merged stream is a permutation of the per-file yield sequences (merge_perm) and "
@@ -170,43 +173,71 @@ def _proj(e, owner):
             _o(a.get("rank") if isinstance(a, dict) else None), _o(t.get("rank") if isinstance(t, dict) else None)]
 
 
+def _collision_name(tmp, i):
+    """a file name in `tmp` whose job hash equals that of MultifileIngest's own constant job
+    "top_level_multifile" (crc32 % 10000 in the current tree); None if none is found"""
+    import zlib
+    h0 = zlib.crc32(b"top_level_multifile") % 10000
+    for j in range(200000):
+        p = os.path.join(tmp, f"f{i}_{j}.json")
+        if zlib.crc32(p.encode()) % 10000 == h0:
+            return p
+    return None
+
+
 def run_real(case):
+    """case["collide"] (optional): indices of files whose path must share the job hash of the top-level
+    ingester (stream H).  All other paths are re-chosen until the job hashes are pairwise distinct and
+    distinct from the top-level one, so that no file inherits the dialect of another job."""
     from aiu_trace_analyzer.ingest.ingestion import MultifileIngest
     tmp = tempfile.mkdtemp(prefix="aiuverif_c15_")
     owner = {e["u"]: i for i, f in enumerate(case["files"]) for e in f["events"]}
-    out, err, warn = [], "none", None
+    collide = set(case.get("collide") or [])
+    out, err, warn, forced = [], "none", None, None
     try:
-        paths = []
-        for i, f in enumerate(case["files"]):
-            p = os.path.join(tmp, f"f{i}.json")
-            with open(p, "w") as fh:
-                json.dump(file_json(f), fh)
-            paths.append(p)
-        ing = None
-        try:
-            ing = MultifileIngest(source_uri=",".join(paths), show_warnings=False)
-            for ev in ing:
-                out.append(_proj(ev, owner))
-        except AssertionError:
-            err = "assert"
-        except KeyError:
-            err = "key"
-        except IndexError:
-            err = "index"
-        except Exception as e:  # noqa: BLE001 - the class is the observable
-            err = type(e).__name__
-        if ing is not None:
-            warn = []
-            for g in ing.ingesters:
-                warn.append([g.warnings["negative_duration"].args_list["count"],
-                             g.warnings["zero_duration"].args_list["count"]])
-                for w in g.warnings.values():
-                    w.auto_log = False
-            for w in ing.warnings.values():
-                w.auto_log = False
+        gen = 0
+        while True:
+            paths = []
+            for i, f in enumerate(case["files"]):
+                p = _collision_name(tmp, i) if i in collide else None
+                p = p or os.path.join(tmp, f"f{i}.json" if gen == 0 else f"f{i}_g{gen}.json")
+                with open(p, "w") as fh:
+                    json.dump(file_json(f), fh)
+                paths.append(p)
+            ing = None
+            try:
+                ing = MultifileIngest(source_uri=",".join(paths), show_warnings=False)
+                hs = [g.jobhash for g in ing.ingesters]
+                plain = [h for i, h in enumerate(hs) if i not in collide]
+                if gen < 20 and (len(set(plain)) != len(plain) or ing.jobhash in plain):
+                    gen += 1
+                    _quiet(ing)
+                    continue
+                forced = [i for i in sorted(collide) if i < len(hs) and hs[i] == ing.jobhash]
+                for ev in ing:
+                    out.append(_proj(ev, owner))
+            except AssertionError:
+                err = "assert"
+            except KeyError:
+                err = "key"
+            except IndexError:
+                err = "index"
+            except Exception as e:  # noqa: BLE001 - the class is the observable
+                err = type(e).__name__
+            if ing is not None:
+                warn = [[g.warnings["negative_duration"].args_list["count"],
+                         g.warnings["zero_duration"].args_list["count"]] for g in ing.ingesters]
+                _quiet(ing)
+            break
     finally:
         shutil.rmtree(tmp, ignore_errors=True)
-    return {"out": out, "err": err, "warn": warn}
+    return {"out": out, "err": err, "warn": warn, "collision_forced": forced}
+
+
+def _quiet(ing):
+    for g in list(ing.ingesters) + [ing]:
+        for w in g.warnings.values():
+            w.auto_log = False
 
 
 # ---------------------------------------------------------------------------------------------
@@ -467,8 +498,19 @@ def gen_bad(ctx: Ctx):
         yield {"files": files}
 
 
+def gen_collide(ctx: Ctx):
+    """stream H (oracle only): a well-formed FLEX file stored under a path whose job hash collides with
+    the top-level ingester's constant job name"""
+    for n in range(ctx.n(3, 12)):
+        u = U()
+        k = 1 + n % 2
+        files = [mkfile([mk(u(), "X", ts=t, dur=1, pid=3 + i, name="a") for t in range(ctx.rng.randint(1, 3))])
+                 for i in range(k)]
+        yield {"files": files, "collide": [ctx.rng.randrange(k)]}
+
+
 def gen_cases(ctx: Ctx):
-    for name, g in (("G1", gen_g1), ("G2", gen_g2), ("R", gen_wf), ("M", gen_bad)):
+    for name, g in (("H", gen_collide), ("G1", gen_g1), ("G2", gen_g2), ("R", gen_wf), ("M", gen_bad)):
         for c in g(ctx):
             yield name, c
 
@@ -478,6 +520,10 @@ def gen_cases(ctx: Ctx):
 def oracle_on_case(ctx: Ctx, case, verbose=False):
     r = run_real(case)
     v = oracle(case, r)
+    if v and case.get("collide") and r.get("collision_forced"):
+        # the only difference to the other streams is the path: same file, other name => no violation
+        v = ("ingest-jobhash-collision", v[1] + f" [file(s) {r['collision_forced']} stored under a path whose job hash "
+                                                f"equals that of the constant job 'top_level_multifile']")
     if verbose:
         print("input files:")
         for i, f in enumerate(case["files"]):
@@ -519,6 +565,9 @@ def run(ctx: Ctx):
             ctx.count("skipped_negative", sum(a for a, _ in r["warn"]))
             ctx.count("skipped_zero", sum(b for _, b in r["warn"]))
         ctx.count("well_formed_cases", int(all(expected_file(f) is not None for f in case["files"])))
+        if case.get("collide"):
+            ctx.count("jobhash_collision_forced", int(bool(r.get("collision_forced"))))
+            continue        # oracle only: the model assumes distinct job hashes (ASSUMPTIONS)
         cases.append((case, ln))
         reals.append(r)
     ctx.extra["exhaustive"] = False
@@ -550,6 +599,8 @@ def shrink(ctx: Ctx, case, classifier):
         return v is not None and v[0] == classifier
 
     cur = json.loads(json.dumps(case))
+    if cur.get("collide"):
+        return cur
     changed = True
     while changed:
         changed = False
